@@ -1,4 +1,5 @@
 import OjgVerif.Writer.LemmasParse
+import OjgVerif.Writer.LemmasPretty
 /-! # C04 — JSON writers emit valid JSON that denotes the data written
 
 Re-checked on every run against the regenerated constants (`Gen.Root.jMap`, `Gen.Root.hex`,
@@ -7,10 +8,12 @@ Re-checked on every run against the regenerated constants (`Gen.Root.jMap`, `Gen
 for chunk); what the text has to denote is `OjgVerif.Writer.norm` (`Writer/JsonSpec.lean`).
 
 Proved here for the `oj` writers (tight and indented, Sort on and off, OmitNil/OmitEmpty,
-HTML-safe on and off, with and without an `io.Writer`). `pretty` is modelled and tied by
-correspondence only (`Writer/Pretty.lean`); it violates the property in two known ways. -/
+HTML-safe on and off, with and without an `io.Writer`), and for `pretty` WITHOUT alignment up to its
+own rule for omitted members. The full statement for `pretty` is false (`C04_pretty_full_false`,
+`C04_pretty_noalign_full_false`: known findings); with Align the model is tied by correspondence
+and judged by the oracle only. -/
 namespace OjgVerif.C04
-open OjgVerif OjgVerif.Json OjgVerif.Writer
+open OjgVerif OjgVerif.Json OjgVerif.Writer OjgVerif.Writer.Pretty
 
 /-! ## the escaping table -/
 
@@ -24,8 +27,8 @@ theorem jMap_safe : TableSafe Gen.Root.jMap :=
 theorem spaces_ws : (Gen.Oj.spaces.toList.all Spec.isWs) = true := by decide +kernel
 theorem tabs_ws : (Gen.Oj.tabs.toList.all Spec.isWs) = true := by decide +kernel
 
-theorem layout_wf (o : Opts) : (layoutOf o).WF := by
-  unfold layoutOf
+theorem layout_wf (o : Opts) : (Writer.layoutOf o).WF := by
+  unfold Writer.layoutOf
   split
   · exact indentL_wf o spaces_ws tabs_ws
   · exact tightL_wf
@@ -93,10 +96,10 @@ the order written, minus exactly the members OmitNil / OmitEmpty name -/
 theorem C04_oj (o : Opts) (ord : Kvs → Kvs) (hord : IsOrder ord) (v : JV) (hv : okW v) :
     Spec.parseDoc (ojWrite o ord v) = .one (norm o ord v) := by
   rw [ojWrite_eq_text]
-  obtain ⟨b, t, hb, hsb⟩ := text_head o ord (layoutOf o) (depth v) v 0 hv
-  have hlen := depth_le_text o ord hord (layoutOf o) (depth v + 1) v 0 (Nat.lt_succ_self _)
-  have hp := parse_text jMap_safe o ord hord (layoutOf o) (layout_wf o) (depth v + 1) v 0
-    ((text o ord (layoutOf o) (depth v + 1) v 0).length + 1) [] hv (Nat.lt_succ_self _) (by omega) rfl
+  obtain ⟨b, t, hb, hsb⟩ := text_head o ord (Writer.layoutOf o) (depth v) v 0 hv
+  have hlen := depth_le_text o ord hord (Writer.layoutOf o) (depth v + 1) v 0 (Nat.lt_succ_self _)
+  have hp := parse_text jMap_safe o ord hord (Writer.layoutOf o) (layout_wf o) (depth v + 1) v 0
+    ((text o ord (Writer.layoutOf o) (depth v + 1) v 0).length + 1) [] hv (Nat.lt_succ_self _) (by omega) rfl
   simp only [List.append_nil] at hp
   rw [hb] at hp ⊢
   exact parseDoc_of_pValue b t _ (startByte_ne_bom b hsb) (startByte_facts b hsb).1 hp
@@ -105,6 +108,110 @@ theorem C04_oj (o : Opts) (ord : Kvs → Kvs) (hord : IsOrder ord) (v : JV) (hv 
 theorem C04_oj_stream (o : Opts) (ord : Kvs → Kvs) (hord : IsOrder ord) (limit : Nat) (v : JV) (hv : okW v) :
     Spec.parseDoc (ojWriteTo o ord limit v).flatten = .one (norm o ord v) := by
   rw [C04_stream]; exact C04_oj o ord hord v hv
+
+/-! ## pretty -/
+
+/-- the indentation constant of `pretty` is white space only -/
+theorem pretty_spaces_ws : (Gen.Pretty.spaces.toList.all Spec.isWs) = true := by decide +kernel
+
+
+/-- the `oj` options with the same meaning: `pretty` always sorts -/
+def ojOptsOf (p : POpts) : Opts :=
+  { sort := true, omitNil := p.omitNil, omitEmpty := p.omitEmpty, htmlUnsafe := p.htmlUnsafe }
+
+/-- C04 for `pretty.JSON` as the property states it: for every configuration the text is one JSON
+document denoting the tree minus exactly the members OmitNil / OmitEmpty name -/
+def C04_pretty_full : Prop :=
+  ∀ (p : POpts) (ord : Kvs → Kvs) (v : JV), IsOrder ord → okW v →
+    Spec.parseDoc (prettyWrite p ord v) = .one (norm (ojOptsOf p) ord v)
+
+/-- `[{"a":1,"b":2,"c":3},{"a":1}]`: the second row lacks the last column -/
+def alignWitness : JV :=
+  .arr [.obj [([97], .int 1), ([98], .int 2), ([99], .int 3)], .obj [([97], .int 1)]]
+
+/-- with Align the model writes `[ {"a": 1, "b": 2, "c": 3}, {"a": 1,               }]` — not JSON -/
+theorem align_witness_rejected :
+    Spec.accepts (prettyWrite { width := 80, maxDepth := 3, align := true } id alignWitness) = false := by
+  decide +kernel
+
+/-- `pretty` does not have the property (known finding C04-pretty-align-comma) -/
+theorem C04_pretty_full_false : ¬ C04_pretty_full := by
+  intro h
+  have hok : okW alignWitness := by
+    simp only [alignWitness, okW, okKvs, okList, and_true]
+    exact ⟨by decide, by decide⟩
+  have := accepts_of_one _ _ (h { width := 80, maxDepth := 3, align := true } id alignWitness
+    (fun _ => List.Perm.refl _) hok)
+  rw [align_witness_rejected] at this
+  cases this
+
+/-- `[[{"a":1}],[[[5]]]]`: the first column holds a map in one row and an array in the other -/
+def mixedWitness : JV := .arr [.arr [.obj [([97], .int 1)]], .arr [.arr [.arr [.int 5]]]]
+
+/-- with Align and MaxDepth 9 the model writes `[ [{"a": 1,      }], [[[]]]]`: not JSON, and the 5 is
+gone (known finding C04-pretty-align-mixed) -/
+theorem mixed_witness_rejected :
+    Spec.accepts (prettyWrite { width := 80, maxDepth := 9, align := true } id mixedWitness) = false := by
+  decide +kernel
+
+/-- the same statement with alignment switched off -/
+def C04_pretty_noalign_full : Prop :=
+  ∀ (p : POpts) (ord : Kvs → Kvs) (v : JV), p.align = false → IsOrder ord → okW v →
+    Spec.parseDoc (prettyWrite p ord v) = .one (norm (ojOptsOf p) ord v)
+
+/-- `{"a":[]}` under OmitNil alone -/
+def omitWitness : JV := .obj [([97], .arr [])]
+
+/-- … is written as `{}` -/
+theorem omit_witness_text : prettyWrite { omitNil := true } id omitWitness = [123, 125] := by
+  decide +kernel
+
+/-- it does not hold either (known finding C04-pretty-omit): the member `"a": []` is dropped although
+only OmitNil is set -/
+theorem C04_pretty_noalign_full_false : ¬ C04_pretty_noalign_full := by
+  intro h
+  have hok : okW omitWitness := by
+    simp only [omitWitness, okW, okKvs, okList, and_true]
+    decide
+  have h1 := h { omitNil := true } id omitWitness rfl (fun _ => List.Perm.refl _) hok
+  rw [omit_witness_text] at h1
+  have h2 : Spec.parseDoc [123, 125] = .one (.obj []) := by rfl
+  have h3 : norm (ojOptsOf { omitNil := true }) id omitWitness = .obj [([97], .arr [])] := by rfl
+  rw [h2, h3] at h1
+  simp at h1
+
+
+/-- what IS true of `pretty.JSON` without alignment, for every Width, MaxDepth, HTML-safe setting,
+OmitNil/OmitEmpty and iteration order: the text is ONE valid JSON document and its reading is the
+tree with members in ascending key order minus the members `skipP` names — which is what the
+options say except for empty containers under OmitNil and maps emptied by their own omissions -/
+theorem C04_pretty_partial (p : POpts) (ha : p.align = false) (ord : Kvs → Kvs) (hord : IsOrder ord)
+    (v : JV) (hv : okW v) :
+    Spec.parseDoc (prettyWrite p ord v) = .one (normP p.omitNil p.omitEmpty ord v) := by
+  rw [prettyWrite_eq_ptext p ord v ha]
+  obtain ⟨b, t, hb, hsb⟩ := ptext_head (pwOf p ord v) ord (depth v) v 0 false hv
+  have hp := parse_ptext jMap_safe pretty_spaces_ws (pwOf p ord v) ord hord (depth v + 1) v 0 false
+    ((ptext (pwOf p ord v) ord (depth v + 1) v 0 false).length + 1) [] hv (Nat.lt_succ_self _)
+    (Nat.lt_succ_self _) rfl
+  simp only [List.append_nil, pwOf_o] at hp
+  rw [hb] at hp ⊢
+  exact parseDoc_of_pValue b t _ (startByte_ne_bom b hsb) (startByte_facts b hsb).1 hp
+
+/-- … so without alignment and without OmitNil/OmitEmpty `pretty.JSON` has the property exactly as
+stated: for every Width, MaxDepth and HTML-safe setting the text denotes the tree -/
+theorem C04_pretty_noomit (p : POpts) (ha : p.align = false) (hn : p.omitNil = false) (he : p.omitEmpty = false)
+    (ord : Kvs → Kvs) (hord : IsOrder ord) (v : JV) (hv : okW v) :
+    Spec.parseDoc (prettyWrite p ord v) = .one (norm (ojOptsOf p) ord v) := by
+  have ho : omits (ojOptsOf p) = fun _ => false := omits_off (ojOptsOf p) hn he
+  rw [C04_pretty_partial p ha ord hord v hv, hn, he]
+  simp only [normP, norm, normF, skipP_off, ho]
+  rfl
+
+/-- streaming: without alignment the chunks `pretty.WriteJSON` hands over are, joined, the in-memory
+text, for every WriteLimit -/
+theorem C04_pretty_stream (p : POpts) (ha : p.align = false) (ord : Kvs → Kvs) (limit : Nat) (v : JV) :
+    (prettyWriteTo p ord limit v).flatten = prettyWrite p ord v := by
+  rw [prettyWriteTo_flatten p ord limit v ha, prettyWrite_eq_ptext p ord v ha]
 
 /-! ## the hypotheses are not vacuous -/
 
